@@ -48,17 +48,18 @@ def base(salt, kind, a, b, c, d, e):
 
 
 class Dist(DistributionFunction):
-    def __init__(self, n, t, tag=None, log=None):
+    """a spatially varying profile: table[k] = (density, temperature) at the point x = k"""
+    def __init__(self, table, tag=None, log=None):
         super().__init__()
-        self.n, self.t, self.tag, self.log = n, t, tag, log
+        self.table, self.tag, self.log = table, tag, log
 
     def density(self, x, y, z):
-        return self.n
+        return self.table[int(round(x))][0]
 
     def effective_temperature(self, x, y, z):
         if self.log is not None and self.tag is not None:
             self.log["tsamp"].append(list(self.tag))      # which ion species had its temperature sampled
-        return self.t
+        return self.table[int(round(x))][1]
 
     def bulk_velocity(self, x, y, z):
         return Vector3D(0, 0, 0)
@@ -147,74 +148,148 @@ def make_shape(log):
     class RecordingShape(LineShapeModel):
         def __init__(self, line, wavelength, target_species, plasma, atomic_data):
             super().__init__(line, wavelength, target_species, plasma, atomic_data)
-            log["target"] = [eid(target_species.element), target_species.charge]
+            self._tgt = [eid(target_species.element), target_species.charge]
+            log["target"][:] = self._tgt
 
         def add_line(self, radiance, point, direction, spectrum):
             log["radiance"].append(radiance)
+            log["shape_target"][:] = self._tgt
             return spectrum
     return RecordingShape
 
 
-def make_plasma(ne, te, comp, log=None):
-    pl = Plasma()
-    pl.electron_distribution = Dist(ne, te)
-    pl.composition.set([Species(ELEMS[e], c, Dist(n, t, (e, c), log)) for (e, c, n, t) in comp])
-    return pl
-
-
-POINT, DIRECTION = Point3D(0.25, -0.5, 0.125), Vector3D(0, 0, 1)
+DIRECTION = Vector3D(0, 0, 1)
 LINE_CLASSES = {1: ExcitationLine, 2: RecombinationLine, 3: ThermalCXLine}
 
 
+def point(k):
+    return Point3D(float(k), -0.5, 0.125)
+
+
 def new_log():
-    return {"calls": [], "evals": [], "target": [], "radiance": [], "gaunt": [], "tsamp": []}
+    return {"calls": [], "evals": [], "target": [], "shape_target": [], "radiance": [], "gaunt": [], "tsamp": []}
+
+
+def reset_log(log):
+    for v in log.values():
+        del v[:]
+
+
+class SeqPlasma:
+    """One Plasma for a sequence of evaluation points (steps).  Step k is the point x = k; every species has a
+    profile over the points.  The composition is re-set (with change notification) only where the list of
+    (element, charge) keys differs from the previous step's."""
+    def __init__(self, steps, log=None):
+        self.steps, self.log, self.keys = steps, log, None
+        self.pl = Plasma()
+        self.pl.electron_distribution = Dist({k: (s["ne"], s["te"]) for k, s in enumerate(steps)})
+
+    @staticmethod
+    def keys_of(step):
+        return [(e, c) for (e, c, _, _) in step["comp"]]
+
+    def goto(self, k):
+        """returns True when the composition was (re)set for this step"""
+        keys = self.keys_of(self.steps[k])
+        if keys == self.keys:
+            return False
+        j = k
+        while j < len(self.steps) and self.keys_of(self.steps[j]) == keys:
+            j += 1
+        species = []
+        for i, (e, c) in enumerate(keys):
+            table = {m: (self.steps[m]["comp"][i][2], self.steps[m]["comp"][i][3]) for m in range(k, j)}
+            species.append(Species(ELEMS[e], c, Dist(table, (e, c), self.log)))
+        self.pl.composition.set(species)
+        self.keys = keys
+        return True
+
+
+def run_line_seq(steps, lineshape=None, window=(400.0, 600.0, 4)):
+    """steps: single-point cases (kind, cfg, line identical; ne, te, comp per point) evaluated in order on ONE model
+    instance attached to ONE plasma.  Returns one observation per step; obs['fresh'] says whether the model had to
+    populate its cache at that step (first step, composition re-set, or the previous populate failed)."""
+    log = new_log()
+    first = steps[0]
+    e, c, t = first["line"]
+    sp = SeqPlasma(steps, log if lineshape is None else None)
+    ad = StubData(first["cfg"], log)
+    sp.pl.atomic_data = ad
+    model = LINE_CLASSES[first["kind"]](Line(ELEMS[e], c, TRANS[t]), plasma=sp.pl, atomic_data=ad,
+                                        lineshape=lineshape or make_shape(log))
+    out, must_populate = [], True
+    for k in range(len(steps)):
+        changed = sp.goto(k)
+        fresh = changed or must_populate
+        reset_log(log)
+        spec = Spectrum(*window)
+        try:
+            out_sp = model.emission(point(k), DIRECTION, spec)
+        except RuntimeError:
+            out.append(dict(copy_log(log), out="ErrRuntime", samples=[], fresh=fresh))
+            must_populate = True
+            continue
+        except ValueError:
+            out.append(dict(copy_log(log), out="ErrValue", samples=[], fresh=fresh))
+            must_populate = True
+            continue
+        must_populate = False
+        samples = [float(v) for v in out_sp.samples]
+        o = copy_log(log)
+        if not fresh:
+            o["target"] = o["shape_target"]          # the line shape in use reports its target when it is handed a line
+        if lineshape is not None:
+            out.append(dict(o, out="Spectrum", samples=samples, delta=out_sp.delta_wavelength, fresh=fresh))
+            continue
+        if len(log["radiance"]) > 1:
+            raise AssertionError("add_line called %d times" % len(log["radiance"]))
+        if any(v != 0.0 for v in samples):
+            raise AssertionError("the model wrote to the spectrum outside the line shape")
+        out.append(dict(o, out=("Emit", log["radiance"][0]) if log["radiance"] else "Skip", samples=samples, fresh=fresh))
+    return out
+
+
+def copy_log(log):
+    return {k: [list(x) if isinstance(x, list) else x for x in v] for k, v in log.items()}
 
 
 def run_line(case, lineshape=None, window=(400.0, 600.0, 4)):
-    """case: kind, cfg, line=(e, c, t), ne, te, comp=[(e, c, n, t)...].  Returns the observations."""
+    return run_line_seq([case], lineshape, window)[0]
+
+
+def run_total_seq(steps):
+    """steps: cfg, elem, charge, minw, maxw, bins identical; ne, te, comp per point"""
     log = new_log()
-    e, c, t = case["line"]
-    pl = make_plasma(case["ne"], case["te"], case["comp"], log if lineshape is None else None)
-    ad = StubData(case["cfg"], log)
-    pl.atomic_data = ad
-    model = LINE_CLASSES[case["kind"]](Line(ELEMS[e], c, TRANS[t]), plasma=pl, atomic_data=ad,
-                                       lineshape=lineshape or make_shape(log))
-    sp = Spectrum(*window)
+    first = steps[0]
+    sp = SeqPlasma(steps, log)
+    ad = StubData(first["cfg"], log)
+    sp.pl.atomic_data = ad
     try:
-        out_sp = model.emission(POINT, DIRECTION, sp)
-    except RuntimeError:
-        return dict(log, out="ErrRuntime", samples=[])
+        model = TotalRadiatedPower(ELEMS[first["elem"]], first["charge"], plasma=sp.pl, atomic_data=ad)
     except ValueError:
-        return dict(log, out="ErrValue", samples=[])
-    samples = [float(v) for v in out_sp.samples]
-    if lineshape is not None:
-        return dict(log, out="Spectrum", samples=samples, delta=out_sp.delta_wavelength)
-    if len(log["radiance"]) > 1:
-        raise AssertionError("add_line called %d times" % len(log["radiance"]))
-    if any(v != 0.0 for v in samples):
-        raise AssertionError("the model wrote to the spectrum outside the line shape")
-    return dict(log, out=("Emit", log["radiance"][0]) if log["radiance"] else "Skip", samples=samples)
+        return [dict(copy_log(log), out="ErrValue", samples=[], fresh=True) for _ in steps]
+    out, must_populate = [], True
+    for k, case in enumerate(steps):
+        changed = sp.goto(k)
+        fresh = changed or must_populate
+        reset_log(log)
+        spec = Spectrum(case["minw"], case["maxw"], case["bins"])
+        try:
+            out_sp = model.emission(point(k), DIRECTION, spec)
+        except RuntimeError:
+            out.append(dict(copy_log(log), out="ErrRuntime", samples=[], fresh=fresh))
+            must_populate = True
+            continue
+        must_populate = False
+        samples = [float(v) for v in out_sp.samples]
+        touched = bool(log["evals"]) or any(v != 0.0 for v in samples)
+        # an early return and an emission of exactly zero leave the same spectrum: only "Skip or zero" can be observed
+        out.append(dict(copy_log(log), out=("Emit", samples[0]) if touched else "SkipOrZero", samples=samples, fresh=fresh))
+    return out
 
 
 def run_total(case):
-    """case: cfg, elem, charge, ne, te, comp, minw, maxw, bins"""
-    log = new_log()
-    pl = make_plasma(case["ne"], case["te"], case["comp"])
-    ad = StubData(case["cfg"], log)
-    pl.atomic_data = ad
-    sp = Spectrum(case["minw"], case["maxw"], case["bins"])
-    try:
-        model = TotalRadiatedPower(ELEMS[case["elem"]], case["charge"], plasma=pl, atomic_data=ad)
-        out_sp = model.emission(POINT, DIRECTION, sp)
-    except RuntimeError:
-        return dict(log, out="ErrRuntime", samples=[])
-    except ValueError:
-        return dict(log, out="ErrValue", samples=[])
-    samples = [float(v) for v in out_sp.samples]
-    touched = bool(log["evals"]) or any(v != 0.0 for v in samples)
-    # an early return and an emission of exactly zero leave the same spectrum: told apart by the model's guards,
-    # here only "Skip or zero" can be observed
-    return dict(log, out=("Emit", samples[0]) if touched else "SkipOrZero", samples=samples)
+    return run_total_seq([case])[0]
 
 
 def run_bremsfn(case):
@@ -225,23 +300,36 @@ def run_bremsfn(case):
     return {"value": float(f(case["wvl"])), "gaunt": log["gaunt"]}
 
 
-def run_brems(case):
-    """case: gaunt, ne, te, comp, minw, maxw, bins, tight (integrator tolerance), via_provider"""
+def run_brems_seq(steps):
+    """steps: gaunt, minw, maxw, bins, tight, via_provider identical; ne, te, comp per point; ONE Bremsstrahlung instance
+    (its BremsFunction caches the charge and density arrays between calls)"""
     log = new_log()
-    pl = make_plasma(case["ne"], case["te"], case["comp"])
-    gs = GauntStub(case["gaunt"], log)
+    first = steps[0]
+    sp = SeqPlasma(steps, None)
+    gs = GauntStub(first["gaunt"], log)
     ad = StubData({"salt": 0, "sgn": 1.0, "cn": 0.0, "ct": 0.0, "cd": 0.0, "missing": 0}, log, gaunt=gs)
-    pl.atomic_data = ad
+    sp.pl.atomic_data = ad
     kw = {}
-    if case["tight"]:
+    if first["tight"]:
         kw["integrator"] = GaussianQuadrature(relative_tolerance=1e-13)
-    if not case["via_provider"]:
+    if not first["via_provider"]:
         kw["gaunt_factor"] = gs
-    model = Bremsstrahlung(plasma=pl, atomic_data=ad, **kw)
-    sp = Spectrum(case["minw"], case["maxw"], case["bins"])
-    out_sp = model.emission(POINT, DIRECTION, sp)
-    return {"samples": [float(v) for v in out_sp.samples], "gaunt_z": sorted({z for z, _ in log["gaunt"]}),
-            "gaunt_te": sorted({t for _, t in log["gaunt"]}), "calls": log["calls"]}
+    model = Bremsstrahlung(plasma=sp.pl, atomic_data=ad, **kw)
+    out, must_populate = [], True
+    for k, case in enumerate(steps):
+        changed = sp.goto(k)
+        fresh = changed or must_populate
+        must_populate = False
+        reset_log(log)
+        spec = Spectrum(case["minw"], case["maxw"], case["bins"])
+        out_sp = model.emission(point(k), DIRECTION, spec)
+        out.append({"samples": [float(v) for v in out_sp.samples], "gaunt_z": sorted({z for z, _ in log["gaunt"]}),
+                    "gaunt_te": sorted({t for _, t in log["gaunt"]}), "calls": [list(c) for c in log["calls"]], "fresh": fresh})
+    return out
+
+
+def run_brems(case):
+    return run_brems_seq([case])[0]
 
 
 def run_radfn(case):
@@ -251,7 +339,7 @@ def run_radfn(case):
               bins=case["bins"])
     sp = ray.new_spectrum()
     from raysect.core import AffineMatrix3D
-    out = rf.emission_function(POINT, DIRECTION, sp, World(), ray, None, AffineMatrix3D(), AffineMatrix3D())
+    out = rf.emission_function(point(0), DIRECTION, sp, World(), ray, None, AffineMatrix3D(), AffineMatrix3D())
     return {"samples": [float(v) for v in out.samples]}
 
 
